@@ -1,3 +1,49 @@
-import SqliteDissect.Model.Wal
+/-
+C01 — live table rows are reported exactly as SQLite stores them (record level; the codec level
+is C15, the payload split / overflow chain level is C16, page acceptance is C06).
+-/
+import SqliteDissect.Proofs.Record
+
 namespace SqliteDissect.Properties.C01
+open SqliteDissect SqliteDissect.Model
+
+/-- the column the model reports for a stored column -/
+def expectedCol (c : Spec.Col) : RecordCol :=
+  ⟨c.st, Spec.varintLen (Spec.toU64 c.st), c.content.length, (Spec.serialGet c.st c.content).getD .null⟩
+
+/-- `Record.__init__` inverts SQLite's record encoding, wherever the record sits in the page
+(`pre`/`post` arbitrary), however its bytes are split between the page (`b` local bytes) and the
+overflow chain: same number of columns, same serial types, same values, the whole payload as
+digest input.  (`(typeBytes cols).length + 3 < 2^21` keeps the header-size varint within
+three bytes — far beyond any page.) -/
+theorem record_roundtrip (cols : List Spec.Col) (hv : ∀ c ∈ cols, Spec.ValidCol c)
+    (hn : (Spec.typeBytes cols).length + 3 < 2 ^ 21)
+    (pre post : List Nat) (b : Nat)
+    (hb1 : Spec.varintLen (Spec.hdrSize (Spec.typeBytes cols).length) ≤ b)
+    (hb2 : b ≤ (Spec.encodeRecord cols).length) :
+    parseRecord (Buf.ofList (pre ++ (Spec.encodeRecord cols).take b ++ post)) (pre.length : Int)
+        ((Spec.encodeRecord cols).length : Int) (b : Int) (Buf.ofList ((Spec.encodeRecord cols).drop b))
+      = .ok ⟨(Spec.hdrSize (Spec.typeBytes cols).length : Int),
+             Spec.varintLen (Spec.hdrSize (Spec.typeBytes cols).length),
+             cols.map expectedCol, Spec.encodeRecord cols⟩ := by
+  exact Proofs.Record.record_roundtrip cols hv hn pre post b hb1 hb2
+
+/-- every stored column decodes (no value is ever defaulted) -/
+theorem expectedCol_defined (c : Spec.Col) (hv : Spec.ValidCol c) :
+    ∃ v, Spec.serialGet c.st c.content = some v ∧ (expectedCol c).value = v := by
+  exact Proofs.Record.expectedCol_defined c hv
+
+/-- the header size SQLite writes is self-describing -/
+theorem hdrSize_spec (n : Nat) (hn : n + 3 < 2 ^ 21) :
+    Spec.hdrSize n = n + Spec.varintLen (Spec.hdrSize n) := by
+  exact Proofs.Record.hdrSize_spec n hn
+
+/-- the signature string used by signatures and carving is the per-column class string -/
+theorem record_signature (cols : List Spec.Col) (r : Record) (h : r.cols = cols.map expectedCol) :
+    r.signature = String.join (cols.map fun c => toString (serialTypeSignature c.st)) := by
+  exact Proofs.Record.record_signature cols r h
+
+/-! non-vacuity: (NULL, 7, 'hi') -/
+example : Spec.encodeRecord [⟨0, []⟩, ⟨1, [7]⟩, ⟨17, [104, 105]⟩] = [4, 0, 1, 17, 7, 104, 105] := by decide
+
 end SqliteDissect.Properties.C01
